@@ -9,8 +9,10 @@ whatever meta.json lists under "checks". Result: runner/matrix.json + a table on
 """
 import glob, json, os, re, subprocess, sys, time
 
-V = os.path.dirname(os.path.dirname(os.path.abspath(__file__)))
-MUT = os.environ.get("MUT_REPO", "/tmp/muteval_repo")
+HOME = os.path.dirname(os.path.dirname(os.path.abspath(__file__)))
+SLOT = os.environ.get("MUT_SLOT")            # parallel slot: checks run in a private copy of /verif
+V = "/tmp/mv_%s/verif" % SLOT if SLOT else HOME
+MUT = os.environ.get("MUT_REPO", "/tmp/mv_%s/repo" % SLOT if SLOT else "/tmp/muteval_repo")
 TIER = os.environ.get("MUT_TIER", "quick")
 
 
@@ -22,6 +24,11 @@ def sh(cmd, cwd=None, env=None, timeout=7200):
 
 def main():
     what = sys.argv[1] if len(sys.argv) > 1 else "all"
+    if SLOT:
+        os.makedirs("/tmp/mv_%s" % SLOT, exist_ok=True)
+        sh(["rsync", "-a", "--delete", "--exclude", ".work/sweep", HOME + "/", V + "/"])
+        if os.path.exists("/tmp/mv_%s/matrix.json" % SLOT):
+            os.remove("/tmp/mv_%s/matrix.json" % SLOT)
     pref = sys.argv[2:]
     items = []
     if what in ("mutants", "all"):
@@ -52,7 +59,7 @@ def main():
     rc, o = sh(["git", "-C", "/repo", "worktree", "add", "--detach", MUT, head])
     if rc != 0:
         sys.exit("cannot create scratch worktree: " + o)
-    mpath = os.path.join(V, "runner", "matrix.json")
+    mpath = os.path.join(V, "runner", "matrix.json") if not SLOT else "/tmp/mv_%s/matrix.json" % SLOT
     matrix = json.load(open(mpath)) if os.path.exists(mpath) else {}
     env = dict(os.environ, VERIF_REPO=MUT)
     try:
@@ -82,8 +89,8 @@ def main():
             json.dump(matrix, open(mpath, "w"), indent=1, sort_keys=True)
     finally:
         sh(["git", "-C", "/repo", "worktree", "remove", "--force", MUT])
-        # leave /verif's generated files and harness built from /repo again
-        sh(["./check", "--setup"], cwd=V)
+        if not SLOT:    # leave /verif's generated files and harness built from /repo again
+            sh(["./check", "--setup"], cwd=V)
 
 
 if __name__ == "__main__":
